@@ -49,9 +49,8 @@ def scratch_shapes():
     return S
 
 
-def logic_item(item):
+def _logic_item_path(item, rep, eng):
     recipe, m = item
-    rep = common.Report()
     name = recipe[1]['name'] if recipe[0] == 'nl' else recipe[1]
     c = netlist.from_recipe(recipe)
     runs = {}
@@ -66,7 +65,7 @@ def logic_item(item):
                 ok, what = replay(data)
                 if ok: rep.violation(f'logic/exception={type(e).__name__}/c_reuse={reuse},strip_forks={strip}', f'{name} m={m}: {what}', data)
                 else: rep.error(f'{name} m={m} {reuse},{strip}: {type(e).__name__}: {e}')
-                return rep
+                return
             runs[(reuse, strip, sims)] = (s, ins)
             rep.counts['paths'] += 1; rep.counts['ops'] += len(s.ops)
     ref, rins = runs[(False, False, 3)]
@@ -78,7 +77,7 @@ def logic_item(item):
             for p in range(planes):
                 bad.append(((s.s[1, i, p, 0] ^ ref.s[1, i, p, 0]) & 7) != 0)
         rep.counts['obligations'] += len(bad)
-        q = lanes.Q(rep)
+        q = lanes.Q(rep, eng=eng)
         r = q.check(z3.Or(bad)) if bad else z3.unsat
         if r == z3.unsat: rep.counts['discharged'] += len(bad)
         elif r == z3.sat:
@@ -95,7 +94,7 @@ def logic_item(item):
     s1 = LogicSim(c, 8, m=m); ins1 = lanes.symbolize(s1, tag='i'); lanes.simulate(s1)
     j = z3.BitVec('lane', 8)
     bit = z3.BitVecVal(1, 8) << j
-    q = lanes.Q(rep)
+    q = lanes.Q(rep, eng=eng)
     q.add(z3.ULT(j, 8))
     for k in ins1:
         if k[1] < planes: q.add(((ins1[k] ^ ins2[k]) & bit) == 0)
@@ -106,8 +105,13 @@ def logic_item(item):
     elif r == z3.sat: rep.violation(f'logic/lane-interference/{name}', f'{name} m={m}: a lane\'s result depends on other lanes', {'mode': 'lane', 'recipe': recipe, 'm': m})
     else: rep.error('lane query unknown')
     rep.sample({'circuit': name, 'm': m, 'settings compared': [list(k) for k in runs], 'verdict': 'unsat'}, limit=3)
-    return rep
+    return
 
+
+def logic_item(item):
+    rep = common.Report()
+    lanes.explore(lambda eng: _logic_item_path(item, rep, eng), rep)
+    return rep
 
 def replay_logic(data):
     c = netlist.from_recipe(data['recipe'])
